@@ -299,6 +299,8 @@ def mux_module_of(h):
 
 # written, but beyond reach on this machine (reason): never selected by a tier, see DESIGN §8
 OFF = {
+    "c08_wd_request_in_tail_k0": "a stream request made at wind_down's first log site (before the outbound queue is closed): symbolic execution not finished after 900 s (new_stream_channel nested in wind_down); the later sites k1, k2 run",
+    "c08_start_invalid_message": "the whole Task::start future fed an invalid message with a peer that then stays silent: not finished after 900 s - seed C10d (wind_down asked to drain after an InvalidFrame error) is NOT detected",
     "c02_w_plain_big": "one write of 1 MiB + 1 octet (constant contents): the solver does not finish within 600 s (1 MiB array copies); writes larger than a few octets are therefore outside the claim - seed C02c (writes > 1 MiB split into several frames, replayed from the start after a Pending) is NOT detected",
     "c20_three_steps_s12": "truncate -> split_off -> advance with three symbolic arguments: out of memory at 20 GB",
     "c20_three_steps_s213": "truncate -> split_off -> advance with three symbolic arguments: out of memory at 20 GB",
